@@ -349,6 +349,7 @@ func goSide(dir string, p *Prog) ([][]string, error) {
 	defer cancel()
 	cmd := exec.CommandContext(ctx, "go", "build", "-gcflags=-N -l", "-o", "prog.bin", ".")
 	cmd.Dir = dir
+	cmd.Env = append(os.Environ(), "GOMAXPROCS=4") // many builds run side by side
 	tb := time.Now()
 	out, err := cmd.CombinedOutput()
 	tGoBuild.Add(int(time.Since(tb).Milliseconds()))
